@@ -215,7 +215,7 @@ impl ConnAckProperties {
         let mut authentication_method = None;
         let mut authentication_data = None;
 
-        let (properties_len_len, properties_len) = length(bytes.iter())?;
+        let (properties_len_len, properties_len) = length_in_frame(bytes.iter())?;
         bytes.advance(properties_len_len);
         if properties_len == 0 {
             return Ok(None);
